@@ -361,7 +361,7 @@ class Exec:
             return Agg("closure", [])
         if txt == "RangeFull":
             return Agg("RangeFull", [])
-        m = re.match(r"^(u8|u16|u32|u64|u128|usize)::MAX$", txt)
+        m = re.match(r"^(u8|u16|u32|u64|u128|usize)::MAX$", txt) or re.match(r"^core::num::<impl (u8|u16|u32|u64|u128|usize)>::MAX$", txt)
         if m:
             return IV((1 << BITS[m.group(1)]) - 1, m.group(1))
         # named constant of this crate
@@ -947,7 +947,21 @@ class Exec:
     def pick(self, cands, args, fn=""):
         """choose among same-named items (by-ref / by-value variants) by argument kinds and,
         for `<Type as Trait>::m` / `Type::m` calls, by the receiver type"""
+        ms0 = re.match(r"^<(.+?) as [^>]*>::\w+$", fn)
+        if ms0 and re.match(r"^(&|\[|\(|Vec<|Option<|Box<|alloc::|std::|core::|u8$|u16$|u32$|u64$|u128$|usize$|bool$)", ms0.group(1).strip()):
+            want = re.sub(r"^&(mut )?", "", ms0.group(1).strip()).replace(" ", "")
+            keep = [c for c in cands if c.params and re.sub(r"^&(mut )?", "", c.params[0][1].strip()).replace(" ", "") == want]
+            if not keep:
+                raise Unsupported("call " + fn)
+            cands = keep
         if len(cands) == 1:
+            # `<[u8; 32] as Zeroize>::zeroize`, `<Vec<T> as Clone>::clone`, ... are library code: a
+            # same-named method of a crate type is not the callee (it would recurse into itself)
+            ms = re.match(r"^<(.+?) as [^>]*>::\w+$", fn)
+            if ms and re.match(r"^(&|\[|\(|Vec<|Option<|Box<|alloc::|std::|core::|u8$|u16$|u32$|u64$|u128$|usize$|bool$)", ms.group(1).strip()):
+                rcv = re.sub(r"^&(mut )?", "", cands[0].params[0][1].strip()) if cands[0].params else ""
+                if rcv.replace(" ", "") != re.sub(r"^&(mut )?", "", ms.group(1).strip()).replace(" ", ""):
+                    raise Unsupported("call " + fn)
             return cands[0]
         m = re.match(r"^<([\w:]+) as [^>]*>::\w+$", fn) or re.match(r"^([\w:]+)::\w+$", fn)
         if m:
@@ -972,6 +986,9 @@ class Exec:
     def intrinsic(self, fn, args, path):
         ctx = self.ctx
         M64 = 1 << 64
+        mw = re.match(r"^<(usize|u128|u64|u32|u16) as From<(u8|u16|u32|u64)>>::from$", fn)
+        if mw and args and isinstance(args[0], IV) and BITS[mw.group(1)] >= BITS[mw.group(2)]:
+            return IV(args[0].t, mw.group(1))     # lossless widening
         if fn in ("mac", "adc", "sbb") or fn.endswith(("::mac", "::adc", "::sbb")):
             name = fn.split("::")[-1]
             a = [x.t for x in args]
